@@ -103,6 +103,9 @@ func runNet(s *vsimcore.Sim, p vsimcore.Params) vsimcore.RunInfo {
 			cfg.rEarlyTimer = 2
 		}
 	}
+	if cfg.oracles["C11"] {
+		cfg.rLull = []int{0, 6, 12, 25}[s.Choose("lull-rate", 4)]
+	}
 	w := newVzWorld(s, cfg)
 	stalled := false
 	fill := func() {
